@@ -635,6 +635,227 @@ Lemma view_binary last f : is_ad (wf_type f) = false ->
   let v := view last f in (rf_bin v, rf_seg v, rf_off v, rf_len v) = (true, wf_seg f, wf_off f, zlen (wf_data f)).
 Proof. intros H. unfold view, hdr_fields. rewrite H. reflexivity. Qed.
 
+(* ------------------------------------------------------------------------------------------------ bounded reads (INPUT$) *)
+
+(* the text records ahead end in a counted record before the tape ends or becomes unreadable *)
+Fixpoint terminated (rest : list record) : bool :=
+  match rest with
+  | [] => false
+  | r :: rest' => match r with
+                  | [] => false
+                  | b :: _ => if cas_is_last (hd 0 b) then true else terminated rest'
+                  end
+  end.
+
+Definition ahead (rest : list record) : list Z :=
+  match read_text rest with DData d _ => d | DIOErr _ => [] end.
+Definition after (rest : list record) : list record :=
+  match read_text rest with DData _ r => r | DIOErr r => r end.
+
+(* what is still to be read from an open text file, and where the tape head ends up *)
+Definition remaining (s : rdst) : list Z := rd_buf s ++ (if rd_done s then [] else ahead (rd_rest s)).
+Definition final_rest (s : rdst) : list record := if rd_done s then rd_rest s else after (rd_rest s).
+Definition good (s : rdst) : Prop := rd_done s = true \/ terminated (rd_rest s) = true.
+
+Lemma terminated_readable : forall rest, terminated rest = true -> exists d r, read_text rest = DData d r.
+Proof.
+  induction rest as [|r rest' IH]; [discriminate|]. destruct r as [|b bs]; [discriminate|].
+  cbn [terminated read_text]. destruct (cas_is_last (hd 0 b)); intros H.
+  - eexists. eexists. reflexivity.
+  - destruct (IH H) as (d & r'' & E). rewrite E. eexists. eexists. reflexivity.
+Qed.
+
+Lemma fill_text_spec rest : terminated rest = true ->
+  exists s2, fill_text rest = FOk s2 /\ good s2 /\ remaining s2 = ahead rest /\ final_rest s2 = after rest /\
+             (length (rd_rest s2) < length rest)%nat.
+Proof.
+  destruct rest as [|r rest']; [discriminate|]. destruct r as [|b bs]; [discriminate|].
+  unfold ahead, after, remaining, final_rest, good. cbn [terminated fill_text read_text].
+  destruct (cas_is_last (hd 0 b)) eqn:E; intros H.
+  - eexists. split; [reflexivity|]. cbn [rd_buf rd_done rd_rest length]. rewrite app_nil_r.
+    repeat split; auto.
+  - eexists. split; [reflexivity|]. cbn [rd_buf rd_done rd_rest length].
+    destruct (terminated_readable _ H) as (d & r'' & Er). unfold ahead, after. rewrite Er. repeat split; auto.
+Qed.
+
+(* one bounded read returns exactly the next n bytes of the file (fewer only when fewer remain),
+   advances by what it returned, and a short answer means the file has been read to its last record *)
+Lemma cs_read_spec : forall fuel n c s, good s -> (length (rd_rest s) < fuel)%nat ->
+  exists s', cs_read fuel n c s = ROk (c ++ firstn (n - length c) (remaining s)) s' /\
+             remaining s' = skipn (n - length c) (remaining s) /\ good s' /\ final_rest s' = final_rest s /\
+             ((length (c ++ firstn (n - length c) (remaining s)) < n)%nat -> rd_done s' = true).
+Proof.
+  induction fuel as [|fuel IH]; intros n c s Hg Hf; [lia|].
+  cbn [cs_read]. set (k := (n - length c)%nat).
+  destruct (n <=? length (c ++ firstn k (rd_buf s)))%nat eqn:E.
+  - apply Nat.leb_le in E. rewrite app_length, firstn_length in E.
+    assert (Hk : (k <= length (rd_buf s))%nat) by lia.
+    eexists. split; [|split; [|split; [|split]]].
+    + unfold remaining. rewrite firstn_app. replace (k - length (rd_buf s))%nat with 0%nat by lia.
+      cbn [firstn]. rewrite app_nil_r. reflexivity.
+    + unfold remaining. cbn [rd_buf rd_done rd_rest]. rewrite skipn_app.
+      replace (k - length (rd_buf s))%nat with 0%nat by lia. reflexivity.
+    + exact Hg.
+    + reflexivity.
+    + unfold remaining. rewrite firstn_app. replace (k - length (rd_buf s))%nat with 0%nat by lia.
+      cbn [firstn]. rewrite app_nil_r, app_length, firstn_length. lia.
+  - apply Nat.leb_gt in E. rewrite app_length, firstn_length in E.
+    assert (Hk : (length (rd_buf s) < k)%nat) by lia.
+    destruct (rd_done s) eqn:Hd.
+    + eexists. split; [|split; [|split; [|split]]].
+      * unfold remaining. rewrite Hd, app_nil_r. reflexivity.
+      * unfold remaining. cbn [rd_buf rd_done rd_rest]. rewrite Hd, !app_nil_r. reflexivity.
+      * left. reflexivity.
+      * unfold final_rest. cbn [rd_done rd_rest]. rewrite Hd. reflexivity.
+      * intros _. reflexivity.
+    + destruct Hg as [Hg|Hg]; [congruence|].
+      destruct (fill_text_spec _ Hg) as (s2 & Ef & Hg2 & Hr2 & Hfr2 & Hl2). rewrite Ef.
+      destruct (IH n (c ++ firstn k (rd_buf s)) s2 Hg2 ltac:(lia)) as (s' & Er & Hrem & Hg' & Hfr' & Hshort).
+      assert (Efirst : firstn k (rd_buf s) = rd_buf s) by (apply firstn_all2; lia).
+      assert (Ek : (n - length (c ++ firstn k (rd_buf s)) = k - length (rd_buf s))%nat)
+        by (rewrite app_length, Efirst; lia).
+      assert (Eout : (c ++ firstn k (rd_buf s)) ++ firstn (n - length (c ++ firstn k (rd_buf s))) (remaining s2) =
+                     c ++ firstn k (remaining s)).
+      { rewrite Ek, Hr2. unfold remaining. rewrite Hd, firstn_app, Efirst, app_assoc. reflexivity. }
+      exists s'. split; [rewrite Er, Eout; reflexivity|]. split; [|split; [exact Hg'|split]].
+      * rewrite Hrem, Ek, Hr2. unfold remaining. rewrite Hd, skipn_app.
+        replace (skipn k (rd_buf s)) with (@nil Z) by (symmetry; apply skipn_all2; lia). reflexivity.
+      * rewrite Hfr', Hfr2. unfold final_rest. rewrite Hd. reflexivity.
+      * rewrite <- Eout. exact Hshort.
+Qed.
+
+(* the lengths a sequence of bounded reads must return: min (request, bytes left); a final 0 *)
+Fixpoint lens_spec (fuel : nat) (plan : list nat) (i : nat) (left : nat) : list Z :=
+  match fuel with
+  | O => []
+  | S f => let g := Nat.min (nth (i mod length plan) plan 1%nat) left in
+           match g with
+           | O => [0]
+           | _ => Z.of_nat g :: lens_spec f plan (S i) (left - g)
+           end
+  end.
+
+Lemma read_plan_spec : forall fuel plan i s data lens, good s -> Forall (fun n => (1 <= n)%nat) plan ->
+  (length (remaining s) < fuel)%nat ->
+  read_plan fuel plan i s data lens =
+  Some (data ++ remaining s, lens ++ lens_spec fuel plan i (length (remaining s)), final_rest s).
+Proof.
+  induction fuel as [|fuel IH]; intros plan i s data lens Hg Hp Hf; [lia|].
+  cbn [read_plan lens_spec]. set (n := nth (i mod length plan) plan 1%nat).
+  assert (Hn : (1 <= n)%nat).
+  { unfold n. destruct (nth_in_or_default (i mod length plan) plan 1%nat) as [Hin | Hdef]; [|rewrite Hdef; lia].
+    rewrite Forall_forall in Hp. apply Hp, Hin. }
+  unfold read_n. destruct (cs_read_spec (S (length (rd_rest s))) n [] s Hg ltac:(lia))
+    as (s' & Er & Hrem & Hg' & Hfr & Hshort).
+  cbn [app length] in *. rewrite Nat.sub_0_r in *. rewrite Er.
+  destruct (firstn n (remaining s)) as [|x xs] eqn:Ec.
+  - assert (Hz : remaining s = []).
+    { destruct (remaining s); [reflexivity|]. destruct n; [lia|discriminate]. }
+    rewrite Hz. cbn [length Nat.min]. rewrite Nat.min_0_r, app_nil_r.
+    assert (Hd : rd_done s' = true) by (apply Hshort; cbn [length]; lia).
+    f_equal. f_equal. rewrite <- Hfr. unfold final_rest. rewrite Hd. reflexivity.
+  - assert (Hlen : length (x :: xs) = Nat.min n (length (remaining s))) by (rewrite <- Ec; apply firstn_length).
+    rewrite <- Hlen. cbn [length]. 
+    rewrite (IH plan (S i) s' (data ++ x :: xs) (lens ++ [zlen (x :: xs)]) Hg' Hp).
+    + assert (E1 : (data ++ x :: xs) ++ remaining s' = data ++ remaining s)
+        by (rewrite Hrem, <- Ec, <- app_assoc, firstn_skipn; reflexivity).
+      assert (E2 : length (remaining s') = (length (remaining s) - S (length xs))%nat)
+        by (rewrite Hrem, skipn_length; cbn [length] in Hlen; lia).
+      rewrite E1, E2, Hfr, <- app_assoc. unfold zlen. cbn [length app]. reflexivity.
+    + rewrite Hrem, skipn_length. cbn [length] in Hlen. lia.
+Qed.
+
+(* bytes on the tape bound the bytes of the file *)
+Lemma ahead_le_bytes : forall rest, (length (ahead rest) <= tape_bytes rest)%nat.
+Proof.
+  unfold ahead, tape_bytes. induction rest as [|r rest' IH]; [cbn; lia|].
+  destruct r as [|b bs].
+  - cbn [read_text]. destruct rest'; cbn; lia.
+  - cbn [read_text]. change (concat (concat ((b :: bs) :: rest'))) with (concat ((b :: bs) ++ concat rest')).
+    rewrite concat_app. cbn [concat]. rewrite !app_length.
+    assert (Ht : (length (tl b) <= length b)%nat) by (destruct b; cbn; lia).
+    destruct (cas_is_last (hd 0 b)).
+    + rewrite firstn_length. lia.
+    + revert IH. destruct (read_text rest') as [d r''|r'']; intros IH; [rewrite app_length|cbn [length]]; lia.
+Qed.
+
+Lemma terminated_flush : forall fuel d rs b rest, (length d <= fuel)%nat -> d <> [] ->
+  flush_aux fuel d = (rs, b) -> terminated (rs ++ mk_record (cas_final_count b :: b) :: rest) = true.
+Proof.
+  induction fuel as [|fuel IH]; intros d rs b rest Hl Hne H.
+  - destruct d; [congruence|simpl in Hl; lia].
+  - cbn [flush_aux] in H. rewrite flush_stop_spec in H. destruct (zlen d <=? 255) eqn:E.
+    + inversion H; subst. cbn [app].
+      assert (Hb : (0 < length b <= 255)%nat).
+      { unfold zlen in E. destruct b; [congruence|]. cbn [length] in *. lia. }
+      rewrite mk_record_single by (cbn [length]; lia). unfold pad_block. cbn [terminated app hd].
+      rewrite is_last_spec, final_count_spec. unfold zlen. destruct (Z.of_nat (length b) =? 0) eqn:E0; [lia|reflexivity].
+    + destruct (flush_aux fuel (skipn nchunk d)) as [rs' b'] eqn:F. inversion H; subst.
+      assert (Hd : 255 < zlen d) by lia. pose proof (skipn_chunk_length d Hd) as Hs.
+      assert (Hne' : skipn nchunk d <> []).
+      { intros C. rewrite C in Hs. unfold zlen in Hd. simpl in Hs. lia. }
+      cbn [app]. rewrite full_prefix_spec. cbn [app].
+      rewrite mk_record_single by (cbn [length]; rewrite firstn_length, chunk_spec; unfold zlen in Hd; lia).
+      unfold pad_block. cbn [terminated app hd]. rewrite is_last_spec. cbn [Z.eqb negb].
+      apply (IH (skipn nchunk d)); try assumption. unfold zlen in Hd. lia.
+Qed.
+
+Lemma terminated_text_records chunks rest : terminated (text_records chunks ++ rest) = true.
+Proof.
+  destruct (text_records_eq chunks) as (rs & b & F & _ & E). rewrite E, <- app_assoc. cbn [app].
+  assert (Hne : concat chunks ++ [0] <> []) by (intros C; apply app_eq_nil in C; destruct C; discriminate).
+  exact (terminated_flush _ _ _ _ rest (Nat.le_refl _) Hne F).
+Qed.
+
+(* Reading a text/data file with bounded reads of ANY sizes >= 1 (INPUT$(n,#f)) returns the same contents and
+   leaves the head at the same place as reading it in one go, and every read returns exactly the number of
+   bytes asked for unless fewer remain in the file. *)
+Theorem text_plan_roundtrip chunks rest plan fuel : Forall (fun n => (1 <= n)%nat) plan ->
+  (length (concat chunks) < fuel)%nat ->
+  read_plan fuel plan 0 (rd0 (text_records chunks ++ rest)) [] [] =
+  Some (concat chunks, lens_spec fuel plan 0 (length (concat chunks)), rest).
+Proof.
+  intros Hp Hf.
+  assert (Hrem : remaining (rd0 (text_records chunks ++ rest)) = concat chunks).
+  { unfold remaining, rd0, ahead. cbn [rd_buf rd_done rd_rest app]. rewrite text_roundtrip. reflexivity. }
+  rewrite read_plan_spec.
+  - rewrite Hrem. unfold final_rest, rd0, after. cbn [rd_done rd_rest app]. rewrite text_roundtrip. reflexivity.
+  - right. apply terminated_text_records.
+  - exact Hp.
+  - rewrite Hrem. exact Hf.
+Qed.
+
+(* find_file with bounded reads: same file, same messages, same head position, and the read lengths *)
+Theorem find_file_plan T cur nreq treq fs1 f rest last plan :
+  Forall (passed_over nreq treq) fs1 -> file_ok f -> matches nreq treq f = true ->
+  last_ok last -> illegal_name nreq = false -> Forall (fun n => (1 <= n)%nat) plan ->
+  open_read_plan plan
+    {| r_tape := T; r_rest := files_records last fs1 ++ file_records (end_last last fs1) f ++ rest;
+       r_type := cur; r_open := false |} nreq treq =
+  ({| r_tape := T; r_rest := rest; r_type := wf_type f; r_open := false |},
+   skipped_msgs fs1 ++ msg 1 (pad_name (wf_name f)) (wf_type f),
+   OFile (view (end_last last fs1) f),
+   if is_binary (wf_type f) then []
+   else lens_spec (S (S (tape_bytes (body_records f ++ rest)))) plan 0 (length (wf_data f))).
+Proof.
+  intros H1 Hf Hm Hl Hn Hp.
+  pose proof (find_file T cur nreq treq fs1 f rest last H1 Hf Hm Hl Hn) as Hall.
+  assert (Hoks : Forall file_ok fs1) by (eapply Forall_impl; [|exact H1]; intros a Ha; apply Ha).
+  pose proof (end_last_ok _ _ Hoks Hl) as Hl'.
+  unfold open_read_plan. cbn [r_open r_rest r_type r_tape]. rewrite Hn.
+  rewrite search_skip_files by assumption.
+  destruct (search_header (end_last last fs1) f nreq treq (last_type cur fs1) ([] ++ skipped_msgs fs1)
+              (false || match fs1 with [] => false | _ => true end) rest Hf Hl') as (hb & Hph & Es).
+  rewrite Es, Hm. destruct (is_binary (wf_type f)) eqn:Hbin; [rewrite Hall; reflexivity|].
+  rewrite Hph. cbn [app]. unfold view.
+  destruct Hf as (_ & Ht & Hb). unfold hdr_fields, body_records in *.
+  destruct (ftype_cases _ Ht) as [[Ha Hbin']|[Ha Hbin']]; [|congruence]. rewrite Ha, Hbin in *.
+  destruct (end_last last fs1) as [[s0 o0] n0]. cbn [fst snd negb].
+  rewrite text_plan_roundtrip; [reflexivity|exact Hp|].
+  pose proof (ahead_le_bytes (text_records (wf_chunks f) ++ rest)) as Hle.
+  unfold ahead in Hle. rewrite text_roundtrip in Hle. lia.
+Qed.
+
 (* ------------------------------------------------------------------------------------------------ decidable side conditions *)
 
 Definition file_okb (f : wfile) : bool :=
